@@ -19,8 +19,19 @@ program all argument values (<= 2^10, else sampled):
   without out_len, counts dicts): own snapshot of the objects before == after each call, result 1 ==
   result 2 (== the own oracle's value where the property defines one); the QlassF itself is unchanged.
 
+Compile-time configurations: the property quantifies over how the function is translated and compiled, so every
+systematic program is compiled under both shipped optimizer profiles (defaultOptimizer, fastOptimizer) x uncompute
+on / off.  `qmap_programs` are the statement forms that change the compiler's qubit map (argument re-bound once /
+twice / in if / in for, copied, returned, unused, used late, augmented assignment, tuple element re-bound, names
+aliased / swapped): under fastOptimizer the assignments reach the compiler and an argument NAME moves to a work
+qubit, while the argument BIT stays on qubit k.  On each: input_qubits == range(n), input_size == n (also against
+the Lean model, `input_qubits_range`), the qubit-map entry of every argument bit name against the compiler model,
+and the round trip through the REPORTED input_qubits / output_qubits.
+
 A round-trip mismatch with all codec-side checks passing is a front-end (C01) or compiler (C02)
-failure: decided by evaluating qf.expressions, counted and skipped here.
+failure: decided by evaluating qf.expressions against the circuit run with the k-th argument bit ON QUBIT k (what C02
+states), counted and skipped here; a mismatch that is only there when the string is loaded on the reported
+input_qubits is a failing input of this property.
 Correspondence: the same data through the Lean model (QV.Model.Codec), compared exactly.
 """
 from __future__ import annotations
@@ -380,6 +391,151 @@ def systematic_programs():
     return P
 
 
+# ---- compile-time configurations the property quantifies over: both shipped optimizer profiles x uncompute
+CONFIGS = [("defaultOptimizer", True), ("defaultOptimizer", False), ("fastOptimizer", True), ("fastOptimizer", False)]
+DEFAULT_CONFIG = CONFIGS[0]
+
+
+def config_tag(config):
+    return f"{config[0]}/uncompute={'on' if config[1] else 'off'}"
+
+
+def qmap_programs():
+    """the same for every seed: every statement form that changes the compiler's qubit map (the map sends a NAME to
+    the qubit of its latest assignment), at the smallest size.  Each is checked under all of CONFIGS: the default
+    profile merges every assignment into the return expressions, `fastOptimizer` hands the assignments to the compiler
+    as they are, so that an argument name moves to a work qubit."""
+    P = []
+    B, Q2 = ["bool"], ["qint", 2]
+    TBB, TBQ, TQQ, TQB = ["tuple", B, B], ["tuple", B, Q2], ["tuple", Q2, Q2], ["tuple", Q2, B]
+    LB = ["tuple", B, B, B]
+
+    def V(t):
+        return ["var", t]
+
+    def S(t):
+        return ["scalar", t]
+
+    def tup(*r):
+        return ["tup"] + list(r)
+
+    def add(kind, argtys, body, ret, rexp, qlist=False):
+        P.append(mk_program(f"c05q_{len(P) + 1}", argtys, body, ret, rexp, "qmap:" + kind, qlist))
+
+    # an argument re-bound once (returned / used in the return expression / not returned / the other one returned)
+    add("rebind-once", [B, B], ["a = a and b", "return a ^ b"], B, S(B))
+    add("rebind-once", [B, B], ["a = a and b", "return a"], B, V(B))
+    add("rebind-once", [B, B], ["a = not a", "return a"], B, V(B))
+    add("rebind-once", [Q2, Q2], ["a = a + b", "return a"], Q2, V(Q2))
+    add("rebind-once", [Q2, Q2], ["b = a + b", "return (a, b)"], TQQ, tup(V(Q2), V(Q2)))
+    add("rebind-once", [B, B, B], ["b = a ^ c", "return (b, a)"], TBB, tup(V(B), V(B)))
+    add("rebind-unreturned", [B, B], ["a = a and b", "return b"], B, V(B))
+    add("rebind-unreturned", [Q2, Q2], ["a = a + b", "return b"], Q2, V(Q2))
+    # re-bound twice (one argument twice, two arguments once each)
+    add("rebind-twice", [Q2, Q2], ["a = a + b", "a = a + b", "return a"], Q2, V(Q2))
+    add("rebind-twice", [B, B], ["a = a ^ b", "a = a and b", "return a"], B, V(B))
+    add("rebind-twice", [B, B], ["a = a ^ b", "b = a and b", "return (a, b)"], TBB, tup(V(B), V(B)))
+    add("rebind-twice", [B, B, B], ["c = a or b", "a = c and b", "c = not a", "return (c, a)"], TBB, tup(V(B), V(B)))
+    # re-bound inside if
+    add("rebind-if", [Q2, B], ["if b:", "    a = a + 1", "return a"], Q2, V(Q2))
+    add("rebind-if", [B, B], ["if b:", "    a = not a", "return a"], B, V(B))
+    add("rebind-if", [B, B, B], ["if c:", "    a = b", "else:", "    b = a", "return (a, b)"], TBB, tup(V(B), V(B)))
+    # re-bound inside for
+    add("rebind-for", [TBB, B], ["for i in range(2):", "    b = b ^ a[i]", "return b"], B, V(B))
+    add("rebind-for", [LB, B], ["for i in range(3):", "    b = b ^ a[i]", "return b"], B, V(B), qlist=True)
+    add("rebind-for", [Q2, Q2], ["for i in range(2):", "    a = a + b", "return a"], Q2, V(Q2))
+    # arguments copied to variables that are then returned
+    add("copy", [Q2, B], ["c = a", "return c"], Q2, V(Q2))
+    add("copy", [B, B], ["c = b", "return c"], B, V(B))
+    add("copy", [TBB, B], ["c = a", "return c"], TBB, V(TBB))
+    add("copy", [B, B], ["c = a", "d = c", "return (d, c)"], TBB, tup(V(B), V(B)))
+    add("copy-rebind", [B, B], ["c = a", "a = a ^ b", "return (c, a)"], TBB, tup(V(B), V(B)))
+    add("copy-rebind", [Q2, Q2], ["c = a", "a = a + b", "return (c, a)"], TQQ, tup(V(Q2), V(Q2)))
+    # returned arguments, unused arguments
+    add("return-arg", [Q2, B], ["return a"], Q2, V(Q2))
+    add("return-arg", [Q2, B], ["return b"], B, V(B))
+    add("return-arg", [B, Q2, B], ["return c"], B, V(B))
+    add("return-arg", [B, B], ["return (b, a)"], TBB, tup(V(B), V(B)))
+    add("unused-arg", [Q2, B, Q2], ["return c"], Q2, V(Q2))
+    add("unused-arg", [Q2, B, Q2], ["return a"], Q2, V(Q2))
+    add("unused-arg", [B, B, B], ["return b"], B, V(B))
+    add("unused-arg", [B, Q2], ["return not a"], B, S(B))
+    add("unused-arg", [B, Q2], ["return True"], B, S(B))
+    # an argument used only in a later statement
+    add("late-use", [B, B], ["c = not a", "d = c and b", "return d"], B, V(B))
+    add("late-use", [Q2, Q2, B], ["d = a + 1", "e = d + b", "return (e, c)"], TQB, tup(V(Q2), V(B)))
+    add("late-use", [B, B, B], ["d = a ^ b", "e = d and c", "a = e", "return (a, d)"], TBB, tup(V(B), V(B)))
+    # augmented assignment on an argument
+    add("augassign", [Q2, Q2], ["a += b", "return a"], Q2, V(Q2))
+    add("augassign", [Q2, B], ["a += 1", "return a"], Q2, V(Q2))
+    add("augassign", [B, B], ["a ^= b", "return a"], B, V(B))
+    add("augassign", [B, B], ["b &= a", "return (a, b)"], TBB, tup(V(B), V(B)))
+    # tuple arguments with one element re-bound
+    add("tuple-elem", [TBB, B], ["a = (a[0] and b, a[1])", "return a"], TBB, V(TBB))
+    add("tuple-elem", [TBQ, B], ["a = (a[0], a[1] + 1)", "return a"], TBQ, V(TBQ))
+    add("tuple-elem", [TBB, B], ["a = (a[1], a[0])", "return a"], TBB, V(TBB))
+    add("tuple-elem", [TBB, B], ["a = (a[0], b)", "return (a[1], a[0])"], TBB, tup(S(B), S(B)))
+    # a name moved onto another argument's qubit / two names exchanged
+    add("alias", [B, B], ["a = b", "return a"], B, V(B))
+    add("alias", [B, B], ["a = b", "return (a, b)"], TBB, tup(V(B), V(B)))
+    add("alias", [B, B], ["c = a", "a = b", "b = c", "return (a, b)"], TBB, tup(V(B), V(B)))
+    add("alias", [Q2, Q2], ["c = a", "a = b", "b = c", "return (a, b)"], TQQ, tup(V(Q2), V(Q2)))
+    return P
+
+
+def random_qmap_program(rng, idx):
+    """random variant of `qmap_programs`: 2-3 scalar arguments (bool or Qint[2]), 1-4 statements drawn from the
+    re-binding / copying / augmented forms (plain, under an if, in a for), a return of names that are in scope"""
+    B, Q2 = ["bool"], ["qint", 2]
+    nargs = rng.choice([2, 2, 3])
+    argtys = [rng.choice([B, B, Q2]) for _ in range(nargs)]
+    names = ARGN[:nargs]
+    scope = dict(zip(names, argtys))  # name -> type, arguments first (dict order)
+    body = []
+    fresh = iter(["d", "e", "g", "h"])
+
+    def expr(t):
+        """(text) of an expression of type t over the names in scope"""
+        same = [n for n, tt in scope.items() if tt == t]
+        if not same:
+            return "True" if t == B else "1"
+        x = rng.choice(same)
+        y = rng.choice(same)
+        if t == B:
+            return rng.choice([f"{x} and {y}", f"{x} ^ {y}", f"not {x}", f"{x} or not {y}", x])
+        return rng.choice([f"{x} + {y}", f"{x} + 1", x])
+
+    for _ in range(rng.randint(1, 4)):
+        tgt = rng.choice(names + names + [None])  # mostly an argument, sometimes a new variable
+        if tgt is None:
+            t = rng.choice([tt for tt in scope.values()])  # a type that has a name in scope
+            tgt = next(fresh)
+            body.append(f"{tgt} = {expr(t)}")
+            scope[tgt] = t
+            continue
+        t = scope[tgt]
+        form = rng.choice(["plain", "plain", "aug", "if", "for"])
+        bools = [n for n, tt in scope.items() if tt == B]
+        if form == "plain":
+            body.append(f"{tgt} = {expr(t)}")
+        elif form == "aug":
+            same = [n for n, tt in scope.items() if tt == t]
+            body.append(f"{tgt} {'^=' if t == B else '+='} {rng.choice(same)}")
+        elif form == "if" and bools:
+            body += [f"if {rng.choice(bools)}:", f"    {tgt} = {expr(t)}"]
+        else:
+            body += [f"for i in range({rng.randint(1, 3)}):", f"    {tgt} = {expr(t)}"]
+    # return: one name, or a display of 2-3 names
+    k = rng.choice([1, 2, 2, 3])
+    picks = [rng.choice(list(scope)) for _ in range(k)]
+    if k == 1:
+        t = scope[picks[0]]
+        return mk_program(f"c05qr_{idx}", argtys, body + [f"return {picks[0]}"], t, ["var", t], "qmap:random")
+    ty = ["tuple"] + [scope[n] for n in picks]
+    rx = ["tup"] + [["var", scope[n]] for n in picks]
+    return mk_program(f"c05qr_{idx}", argtys, body + ["return (" + ", ".join(picks) + ")"], ty, rx, "qmap:random")
+
+
 def random_program(rng, idx, maxbits):
     nargs = rng.choice([1, 1, 2, 2, 3])
     argtys, left = [], maxbits
@@ -491,13 +647,15 @@ class Checker:
         self.res = res
         self.T = importlib.import_module("qlasskit.types")
         self.qlassf = importlib.import_module("qlasskit").qlassf
+        self.boolopt = importlib.import_module("qlasskit.boolopt")
         self.active = {f["quirk"]: f["id"] for f in ctx.findings if f.get("_active") and f.get("quirk")}
         self.quirks = sorted(self.active)
         self.reqs = []  # (request, callback(reply))
         self.stats = dict(programs=0, rejected=0, skipped_c01=0, skipped_c02=0, nonclassical=0,
                           shared_qubit_pairs=0, no_output_qubits=0, roundtrips=0,
                           e2e_instances=0, e2e_in_class=0, e2e_covered=0, e2e_no_form=0, e2e_cache_hit=0,
-                          e2e_roundtrips_covered=0, e2e_by_kind={})
+                          e2e_roundtrips_covered=0, e2e_by_kind={}, by_config={}, rebound_arg_bits=0,
+                          programs_rebinding_an_argument=0, input_qubits_mismatch=0)
 
     def ask(self, req, cb):
         self.reqs.append((req, cb))
@@ -515,17 +673,26 @@ class Checker:
         self.reqs = []
 
     # ------------------------------------------------------------------
-    def check_program(self, prog, max_exh_bits, n_samples, rng):
+    def check_program(self, prog, max_exh_bits, n_samples, rng, config=DEFAULT_CONFIG, codec=True):
+        """`config` = (optimizer profile name, uncompute): how the function is translated and compiled.  `codec=False`
+        leaves out the checks that do not depend on the compilation (decode_output of own encodings, purity of
+        format_outcome / interpret_as_qtype, list-valued arguments): used when the same program is compiled again
+        under another configuration."""
         res, T = self.res, self.T
-        pcase = dict(src=prog["src"])
+        pcase = dict(src=prog["src"], profile=config[0], uncompute=config[1])
         self.stats["programs"] += 1
+        cstat = self.stats["by_config"].setdefault(config_tag(config), dict(programs=0, rejected=0, roundtrips=0,
+                                                                              rebinding_programs=0, e2e_covered=0))
+        cstat["programs"] += 1
         try:
             with e2e.ChoiceLog() as chlog:  # ancilla choices of the real compilation (for the end-to-end coverage)
-                qf = self.qlassf(prog["src"], to_compile=True)
+                qf = self.qlassf(prog["src"], to_compile=True, bool_optimizer=getattr(self.boolopt, config[0]),
+                                 uncompute=config[1])
         except Exception as e:  # front end / compiler rejects: not this property's business
             self.stats["rejected"] += 1
+            cstat["rejected"] += 1
             res.count(dict(pcase, rejected=True), nontrivial=False, bucket="rejected:" + prog["kind"])
-            res.notes.append(f"rejected {prog['name']} ({prog['kind']}): {type(e).__name__}: {str(e)[:80]}") if len(res.notes) < 12 else None
+            res.notes.append(f"rejected {prog['name']} ({prog['kind']}, {config_tag(config)}): {type(e).__name__}: {str(e)[:80]}") if len(res.notes) < 12 else None
             return
         argtys = [t for _, t in prog["args"]]
         ret = prog["ret"]
@@ -536,23 +703,50 @@ class Checker:
         # ---- names and qubit lists (oracle: own naming function)
         exp_arg_names = [own_names(t, nme) for nme, t in prog["args"]]
         exp_ret_names = own_names(ret, "_ret")
+        try:
+            in_q = list(qf.input_qubits)
+        except Exception as e:  # noqa
+            in_q = f"{type(e).__name__}: {e}"
+        try:
+            in_size = qf.input_size
+        except Exception as e:  # noqa
+            in_size = f"{type(e).__name__}: {e}"
         code_sig = dict(arg_bitvecs=[list(a.bitvec) for a in qf.args], ret_bitvec=list(qf.returns.bitvec),
-                        input_qubits=list(qf.input_qubits))
+                        input_qubits=in_q, input_size=in_size)
         if code_sig["arg_bitvecs"] != exp_arg_names or code_sig["ret_bitvec"] != exp_ret_names:
             res.violation(pcase, "bit names are not in argument / return bit order", code=code_sig,
                           expected=dict(arg_bitvecs=exp_arg_names, ret_bitvec=exp_ret_names))
         flat_in_names = [x for l in exp_arg_names for x in l]
-        if code_sig["input_qubits"] != list(range(n)) or any(q >= nq for q in code_sig["input_qubits"]):
-            res.violation(pcase, "input_qubits is not [0..n) in range", code=code_sig["input_qubits"], expected=list(range(n)))
-        elif [qmap.get(x) for x in flat_in_names] != list(range(n)):
-            res.violation(pcase, "the k-th argument bit is not on input qubit k",
-                          code=[qmap.get(x) for x in flat_in_names], expected=list(range(n)))
+        # names the definition list binds again (an assignment to an argument that the optimizer profile did not merge
+        # away): the compiler moves such a NAME to the qubit of its latest assignment; the argument BIT stays where
+        # encode_input puts it, on qubit k
+        bound = {s_.name for s_, _ in qf.expressions}
+        rebound = [x for x in flat_in_names if x in bound]
+        arg_q = [qmap.get(x) for x in flat_in_names]
+        if rebound:
+            self.stats["programs_rebinding_an_argument"] += 1
+            self.stats["rebound_arg_bits"] += len(rebound)
+            cstat["rebinding_programs"] += 1
+        if not isinstance(in_q, list) or in_q != list(range(n)) or any(q >= nq for q in in_q):
+            self.stats["input_qubits_mismatch"] += 1
+            res.violation(pcase, "input_qubits is not [0..n) in range", code=in_q, expected=list(range(n)))
+        elif [q for x, q in zip(flat_in_names, arg_q) if x not in bound] != [k_ for k_, x in enumerate(flat_in_names) if x not in bound]:
+            res.violation(pcase, "the k-th argument bit (its name is never bound again) is not mapped to input qubit k",
+                          code=arg_q, expected=list(range(n)))
+        if in_size != n:
+            res.violation(pcase, "input_size is not the number of argument bits", code=in_size, expected=n)
+        if not isinstance(in_q, list) or len(in_q) != n or any((not isinstance(q, int)) or q < 0 or q >= nq for q in in_q):
+            in_q = None  # nothing can be loaded through it: no round trip (already reported above)
 
         def cb_sig(rep, code_sig=code_sig):
             for k in ("arg_bitvecs", "ret_bitvec", "input_qubits"):
                 if rep.get(k) != code_sig[k]:
                     res.disagree(pcase, f"model and code differ on {k}", code=code_sig[k], model=rep.get(k))
                     break
+            else:
+                if len(rep.get("input_qubits", [])) != code_sig["input_size"]:
+                    res.disagree(pcase, "model and code differ on input_size", code=code_sig["input_size"],
+                                 model=len(rep.get("input_qubits", [])))
         self.ask(dict(op="c05.sig", args=prog["args"], ret=ret), cb_sig)
         # ---- output qubits
         ret_syms = [s.name for s, _ in qf.expressions if s.name.startswith("_ret")]
@@ -609,7 +803,7 @@ class Checker:
         if not classical:
             self.stats["nonclassical"] += 1
         # ---- is this compiled function covered end to end by the Lean theorem C05_end_to_end_general?
-        rt_count = self.check_e2e(qf, prog, pcase, chlog, gates, nq, oq)
+        rt_count = self.check_e2e(qf, prog, pcase, chlog, gates, nq, oq, config, arg_q, rebound, cstat)
         fn = oracle_fn(prog)
         if n <= max_exh_bits:
             idxs, exhaustive = range(2 ** n), True
@@ -624,7 +818,7 @@ class Checker:
         n_listvals = 0
         for idx in idxs:
             vals = arg_values(prog, idx)
-            case = dict(src=prog["src"], values=vals)
+            case = dict(pcase, values=vals)
             res.count(case, nontrivial=(idx != 0 and (len(argtys) > 1 or argtys[0][0] == "tuple" or ret[0] == "tuple")),
                       bucket=prog["kind"])
             flat = [b for t, v in zip(argtys, vals) for b in own_flat(t, v)]
@@ -642,7 +836,7 @@ class Checker:
                 res.violation(case, "encode_input " + bad, code=dict(results=outs, values_after=states[1:]),
                               expected=dict(result=exp_s, values=states[0]))
                 continue
-            if has_tuple_arg and n_listvals < 8:
+            if codec and has_tuple_arg and n_listvals < 8:
                 # tuple / Qlist arguments given as (mutable) lists: same string, lists untouched
                 n_listvals += 1
                 lvals = [to_lists(x) for x in libvals]
@@ -661,7 +855,8 @@ class Checker:
             def cb_enc(rep, s=s, case=case):
                 if rep.get("s") != s:
                     res.disagree(case, "model and code differ on encode_input", code=s, model=rep.get("s"))
-            self.ask(dict(op="c05.encode", args=prog["args"], vals=vals), cb_enc)
+            if codec:
+                self.ask(dict(op="c05.encode", args=prog["args"], vals=vals), cb_enc)
             # expected value by running the Python source on plain values
             try:
                 expected = canon_result(ret, fn(*[plain_value(t, v) for t, v in zip(argtys, vals)]))
@@ -672,19 +867,21 @@ class Checker:
                 outs_by_bit[k_].append(b_)
             # ---- pure codec: decode the own encoding of f(v), three reading forms
             rd = bstr(exp_bits)[::-1]
-            if rd not in dec_seen:
+            if codec and rd not in dec_seen:
                 dec_seen.add(rd)
                 self.check_decode(qf, prog, case, rd, expected, rng if prog.get("random") else None)
             # ---- the round trip through the real circuit
-            if oq is None or not classical:
+            if oq is None or not classical or in_q is None:
                 continue
+            # the string is loaded on the qubits the function REPORTS as its input qubits (never on assumed positions)
             st = [False] * nq
             for i in range(n):
-                st[qf.input_qubits[i]] = s[len(s) - 1 - i] == "1"
+                st[in_q[i]] = s[len(s) - 1 - i] == "1"
             st = circ.run_classical(gates, st)
             reading = "".join("1" if st[q] else "0" for q in reversed(oq))
             readings[reading] = readings.get(reading, 0) + 1 + (idx % 3)
             self.stats["roundtrips"] += 1
+            cstat["roundtrips"] += 1
             rt_count[0] += 1
             try:
                 got = code_val_to_json(ret, qf.decode_output(reading))
@@ -695,7 +892,16 @@ class Checker:
                 known = eval_expressions(qf, dict(zip(flat_in_names, flat)))
                 expr_bits = None if known is None else [known.get(x) for x in exp_ret_names]
                 circ_bits = [st[q] for q in oq]
-                if expr_bits is not None and circ_bits != expr_bits:
+                # what the compiler owes (C02) is stated for the state with the k-th argument bit ON QUBIT k: only a
+                # failure that is also there with the bits loaded by position is the compiler's or the front end's
+                st_pos = circ.run_classical(gates, list(flat) + [False] * (nq - n))
+                pos_bits = [st_pos[q] for q in oq]
+                if circ_bits != pos_bits:
+                    res.violation(case, "round trip: loading encode_input(v) on the reported input_qubits does not give f(v), "
+                                        "loading the k-th argument bit on qubit k gives other output bits",
+                                  code=dict(encode_input=s, input_qubits=in_q, reading=reading, decoded=got, output_qubits=oq,
+                                            output_bits_by_position=pos_bits), expected=expected)
+                elif expr_bits is not None and circ_bits != expr_bits:
                     self.stats["skipped_c02"] += 1
                     self.stats.setdefault("skipped_c02_programs", {})
                     self.stats["skipped_c02_programs"][prog["src"]] = self.stats["skipped_c02_programs"].get(prog["src"], 0) + 1
@@ -730,7 +936,7 @@ class Checker:
                         res.violation(pcase, f"return bits {i} and {j} share qubit {oq[i]} but differ on some input",
                                       code=dict(output_qubits=oq))
         # ---- decode_counts on the observed readings (plus readings with an extra high character)
-        if readings:
+        if readings and codec:
             self.check_counts(qf, prog, pcase, readings, m)
         # ---- the codec calls above are queries: the function object they were made on is as it was
         qf_after = self.qf_state(qf)
@@ -739,13 +945,15 @@ class Checker:
             res.violation(pcase, "encode_input / decode_output / decode_counts changed the QlassF they were called on", code=diff)
         return exhaustive
 
-    def check_e2e(self, qf, prog, pcase, chlog, gates, nq, oq):
+    def check_e2e(self, qf, prog, pcase, chlog, gates, nq, oq, config=DEFAULT_CONFIG, arg_q=None, rebound=(), cstat=None):
         """`C05_end_to_end_general` speaks of the gate list the *compiler model* emits for a definition list of the
         decidable class `inGeneralClass` over the bit names of the signature.  covered = the definition list the real
         compiler got (`qf.expressions`) is in the class AND the model, run on the ancilla choices logged from the real
-        compilation (uncompute on: the default of `qlassf`), reproduces the circuit of this function: same gate list
-        (canonical form), same number of qubits, same `output_qubits`.  In the class but not reproduced = a
-        disagreement.  Returns the cell in which the caller counts the round trips evaluated on this circuit."""
+        compilation (with the uncompute flag of `config`), reproduces the circuit of this function: same gate list
+        (canonical form), same number of qubits, same `output_qubits`, and the final qubit map leaves every argument
+        bit NAME where the real `qubit_map` leaves it (a re-bound name moves; `input_qubits` of the model stays
+        [0..n)).  In the class but not reproduced = a disagreement.  Returns the cell in which the caller counts the
+        round trips evaluated on this circuit."""
         res, st = self.res, self.stats
         st["e2e_instances"] += 1
         rt = [0]
@@ -764,8 +972,20 @@ class Checker:
             st["e2e_in_class"] += 1
             if "error" not in rep and "gates" in rep:
                 mg, cg = canon_gates(rep["gates"]), canon_gates(gates)
+                n_in = len(rep.get("inputs", []))
+                if arg_q is not None and rep.get("arg_qubits") != arg_q:
+                    res.disagree(pcase, "model and code differ on the qubits the final qubit map gives the argument bit names",
+                                 code=arg_q, model=rep.get("arg_qubits"))
+                if rep.get("inputs_fresh") and (rep.get("arg_qubits") != list(range(n_in)) or rebound):
+                    # C05_end_to_end_inputs: no definition binds an argument bit again => the j-th name is on qubit j
+                    res.disagree(pcase, "inputsFresh holds in the model but an argument bit name is not on its input qubit",
+                                 code=dict(arg_qubits=arg_q, rebound=list(rebound)), model=rep.get("arg_qubits"))
+                if rep.get("input_qubits") != list(range(n_in)):
+                    res.disagree(pcase, "the model's input_qubits is not [0..n) (input_qubits_range)", model=rep.get("input_qubits"))
                 if mg == cg and rep.get("num_qubits") == nq and rep.get("oq") == oq and not rep.get("choices_left"):
                     st["e2e_covered"] += 1
+                    if cstat is not None:
+                        cstat["e2e_covered"] += 1
                     st["e2e_roundtrips_covered"] += rt[0]
                     by[0] += 1
                     if rep.get("cache_hit"):
@@ -778,7 +998,7 @@ class Checker:
                 detail = dict(model=rep.get("error", "no gate list"), code=dict(num_qubits=nq, oq=oq, choices=choices))
             res.disagree(pcase, "definition list is in the class inGeneralClass but the compiler model run on the logged "
                          "ancilla choices does not reproduce the circuit of this function", **detail)
-        self.ask(dict(op="c05.e2e", args=prog["args"], ret=prog["ret"], exprs=ej, uncompute=True, choices=choices), cb)
+        self.ask(dict(op="c05.e2e", args=prog["args"], ret=prog["ret"], exprs=ej, uncompute=bool(config[1]), choices=choices), cb)
         return rt
 
     @staticmethod
@@ -998,31 +1218,84 @@ def run(ctx: Ctx) -> Result:
     rng = ctx.rng
     ck = Checker(ctx, res)
     res.rule = (
-        "case = (program source, argument values): systematic slice (every scalar type and tuple shape as "
-        "identity / rebuild / regroup / pack / local-variable / operator program) with ALL argument values, then "
-        "random signatures (1-3 args, nested tuples, Qlist) x return forms with all values when <= 2^10 else "
-        "sampled; non-trivial = non-zero input and a multi-argument or tuple-typed signature; plus per program "
-        "(reading, str/list/int form, out_len) cases of format_outcome / interpret_as_qtype called twice on one object"
+        "case = (program source, optimizer profile, uncompute flag, argument values): systematic slice (every scalar "
+        "type and tuple shape as identity / rebuild / regroup / pack / local-variable / operator program, and every "
+        "statement form that changes the qubit map: argument re-bound once / twice / in if / in for, copied, returned, "
+        "unused, used late, augmented assignment, tuple element re-bound, aliased / swapped) under EVERY configuration "
+        "{defaultOptimizer, fastOptimizer} x {uncompute on, off} with ALL argument values, then random signatures (1-3 "
+        "args, nested tuples, Qlist) x return forms (every third under a random configuration) with all values when "
+        "<= 2^10 else sampled, then random re-binding programs under every configuration; non-trivial = non-zero input "
+        "and a multi-argument or tuple-typed signature; plus per program (reading, str/list/int form, out_len) cases of "
+        "format_outcome / interpret_as_qtype called twice on one object"
     )
     max_exh = 10
     n_samples = 400 if ctx.thorough else 120
     n_random = 1200 if ctx.thorough else 120
     maxbits = 14 if ctx.thorough else 10
+    n_qrandom = 300 if ctx.thorough else 30
     all_exh = True
     progs = systematic_programs()
     for p in progs:
         e = ck.check_program(p, max_exh, n_samples, rng)
         all_exh = all_exh and bool(e)
     ck.flush()
+    # systematic, same for every seed: every compile-time configuration x (the programs above + every statement form
+    # that changes the qubit map); the compilation-independent codec checks are made once per program
+    for p in qmap_programs():
+        for config in CONFIGS:
+            ck.check_program(p, max_exh, n_samples, rng, config=config, codec=(config == DEFAULT_CONFIG))
+    ck.flush()
+    for p in progs:
+        for config in CONFIGS[1:]:
+            ck.check_program(p, max_exh, n_samples, rng, config=config, codec=False)
+    ck.flush()
     for i in range(n_random):
         prng = random.Random(f"C05-{ctx.seed}-{i}")  # every program replays alone
         p = random_program(prng, i, maxbits if i % 4 else min(maxbits, 8))
         p["random"] = True
-        ck.check_program(p, max_exh, n_samples, prng)
+        # the program stream is as before; every third program is compiled under a configuration drawn afterwards
+        config = CONFIGS[prng.randrange(len(CONFIGS))] if i % 3 == 2 else DEFAULT_CONFIG
+        ck.check_program(p, max_exh, n_samples, prng, config=config)
+        if len(ck.reqs) > 20000:
+            ck.flush()
+    ck.flush()
+    # random variants of the qubit-map programs, each under every configuration
+    for i in range(n_qrandom):
+        for config in CONFIGS:
+            prng = random.Random(f"C05-q-{ctx.seed}-{i}")
+            p = random_qmap_program(prng, i)
+            p["random"] = True
+            ck.check_program(p, max_exh, n_samples, prng, config=config, codec=(config == DEFAULT_CONFIG))
         if len(ck.reqs) > 20000:
             ck.flush()
     ck.flush()
     res.extra["c05"] = ck.stats
+    qk = {}
+    for p in qmap_programs():
+        qk[p["kind"]] = qk.get(p["kind"], 0) + 1
+    res.extra["configurations"] = dict(
+        configs=[config_tag(c) for c in CONFIGS],
+        systematic=dict(shape_programs=len(progs), qubit_map_programs=len(qmap_programs()), qubit_map_programs_by_form=qk,
+                        each_under="all 4 configurations, all argument values"),
+        random=dict(signature_programs=n_random, signature_programs_config="default; every third: uniform over the 4",
+                    rebinding_programs=n_qrandom, rebinding_programs_config="each under all 4",
+                    rebinding_program_shape="2-3 arguments in {bool, Qint[2]}, 1-4 statements in {plain, augmented, under if, "
+                                            "in for} assigning mostly to an argument, return of 1-3 names in scope"),
+        by_config=ck.stats["by_config"],
+        programs_rebinding_an_argument=ck.stats["programs_rebinding_an_argument"],
+        rebound_argument_bits=ck.stats["rebound_arg_bits"])
+    bc = ck.stats["by_config"]
+    res.notes.append(
+        "compile-time configurations: " + "; ".join(
+            f"{k}: {v['programs']} compiled functions ({v['rebinding_programs']} whose definition list binds an argument bit "
+            f"name again), {v['roundtrips']} round trips, {v['e2e_covered']} covered end to end" for k, v in bc.items())
+        + f". Systematic (same for every seed): {len(progs)} shape programs + {len(qmap_programs())} qubit-map programs, each "
+          f"under all 4 configurations with all argument values; random: {n_random} signature programs (every third under a "
+          f"configuration drawn uniformly) + {n_qrandom} re-binding programs x 4 configurations. On every compiled function: "
+          "input_qubits == range(n), input_size == n, both also against the Lean model (input_qubits_range), the final "
+          "qubit map's entry of every argument bit name against the compiler model's; every round trip loads the string on "
+          "the REPORTED input_qubits and reads the REPORTED output_qubits; a mismatch is attributed to the compiler / front "
+          "end only if it is also there with the k-th argument bit loaded on qubit k")
     res.exhaustive = False
     res.notes.append("systematic slice: all argument values of every program enumerated; random programs: all values "
                      "when <= 10 input bits, else boundaries + random sample")
@@ -1070,7 +1343,7 @@ def replay(ctx: Ctx, payload):
     res = Result("C05")
     ck = Checker(ctx, res)
     prog = None
-    for p in systematic_programs():
+    for p in systematic_programs() + qmap_programs():
         if p["src"] == src:
             prog = p
     tier = payload.get("tier", "quick")
@@ -1085,9 +1358,20 @@ def replay(ctx: Ctx, payload):
                 prog = p
                 break
     if prog is None:
+        for i in range(300 if tier == "thorough" else 30):
+            prng = random.Random(f"C05-q-{payload.get('seed', 0)}-{i}")
+            p = random_qmap_program(prng, i)
+            p["random"] = True
+            if p["src"] == src:
+                prog = p
+                break
+    if prog is None:
         print("program not found in the generator stream")
         return 2
-    ck.check_program(prog, 10, 400 if tier == "thorough" else 120, prng)
+    # the configuration the failing function was compiled under is part of the case
+    config = (case.get("profile", DEFAULT_CONFIG[0]), bool(case.get("uncompute", DEFAULT_CONFIG[1])))
+    print("configuration:", config_tag(config))
+    ck.check_program(prog, 10, 400 if tier == "thorough" else 120, prng, config=config)
     ck.flush()
     for v in res.violations[:3]:
         print(json.dumps(v, indent=1, default=str)[:3000])
